@@ -8,7 +8,8 @@ TOKEN = -1   # the per-scenario copy of this file (written into the scenario dir
 
 
 class IBM:
-    def __init__(self, modules, kill=None, freeze=None, killfarm=None, **kw):
+    def __init__(self, modules, kill=None, freeze=None, killfarm=None, compact=None, **kw):
+        self.compact = set(int(k) for k in (compact or []))      # steps after which this IBM tidies the state up itself (public State.compactify)
         self.killfarm = {int(k): list(v) for k, v in (killfarm or {}).items()}
         self.m = modules
         self.kill = {int(k): list(v) for k, v in (kill or {}).items()}
@@ -27,6 +28,8 @@ class IBM:
         for pid in self.freeze.get(step, []):
             st["active"][st.pid == pid] = False
         R.emit("ibm", step=step, pre=pre, post=R.snap(st), token=TOKEN)
+        if step in self.compact:
+            st.compactify()
 
     def close(self):
         R.emit("close", mod="ibm", token=TOKEN)
